@@ -12,12 +12,12 @@ import (
 // next_offset is mirrored by a monitor that records every published watermark.
 
 type vsymConcWorld struct {
-	s3        *vsymS3
-	l         *PartitionLog
-	acks      []vsymAck
-	published []int64 // every value stored as next_offset, in order
-	storeNext int64   // the metadata store's next_offset
-	publishEvents bool // the store update is a scheduling point (C05)
+	s3             *vsymS3
+	l              *PartitionLog
+	acks           []vsymAck
+	published      []int64 // every value stored as next_offset, in order
+	storeNext      int64   // the metadata store's next_offset
+	publishEvents  bool    // the store update is a scheduling point (C05)
 	checkAtPublish bool
 	s3EventsOnly   bool // producers are preempted only at S3 calls and when they block
 }
@@ -48,6 +48,7 @@ func vsymNewConcWorld(faulty bool) *vsymConcWorld {
 // maxDurableEnd returns 1 + the largest last offset over segment objects whose index object
 // also exists (0 when there is none).
 func (w *vsymConcWorld) maxDurableEnd() int64 {
+	defer w.s3.lock()()
 	end := int64(0)
 	for key, seg := range w.s3.objs {
 		if !strings.HasSuffix(key, ".kfs") || len(seg) < 32+segmentFooterLen {
